@@ -13,6 +13,7 @@ int assemble_code(UtilContext &util_context, const char *cpu_name, const char *c
 
 jmp_buf g_exit_jmp;
 int g_exit_jmp_active = 0;
+extern "C" void sim_run_atexit();
 int g_exit_status = 0;
 
 int engine_inproc_asm(RBuf &rq)
@@ -37,6 +38,7 @@ int engine_inproc_asm(RBuf &rq)
       if (setjmp(g_exit_jmp) == 0)
       {
         status = naken_asm_main((int)args.size(), argv.data());
+        sim_run_atexit();
       }
       else
       {
